@@ -65,6 +65,21 @@ def _parse_name(name, n):
     return ex
 
 
+CUSTOM = ["t", "tt", "t_t", "at", "ta", "a"]  # caller-supplied column names that contain one another
+
+
+def _parse_custom(name, names):
+    ex = [0] * len(names)
+    if name == "1":
+        return ex
+    for tok in name.split(" "):
+        base, _, power = tok.partition("^")
+        if base not in names or (power and not power.isdigit()):
+            return None
+        ex[names.index(base)] += int(power or 1)
+    return ex
+
+
 def run_config(cfg):
     pf, powers = _oracle(cfg)
     n = cfg["n"]
@@ -78,6 +93,10 @@ def run_config(cfg):
         e.prove(len(names) == powers.shape[0], "names/count")
         for j, nm in enumerate(names[: powers.shape[0]]):
             e.prove(_parse_name(nm, n) == [int(p) for p in powers[j]], f"name")
+        cnames = est.get_feature_names_out(CUSTOM[:n])
+        e.prove(len(cnames) == powers.shape[0], "names/count")
+        for j, nm in enumerate(cnames[: powers.shape[0]]):
+            e.prove(_parse_custom(nm, CUSTOM[:n]) == [int(p) for p in powers[j]], "name(caller-supplied-input-names)", detail=(j, nm))
         # two calls in a row (history): the second batch must be transformed like the first, and the array
         # returned by the first call must still hold the first batch's monomials afterwards (no shared buffer)
         R = cfg.get("rows", 2)
@@ -171,6 +190,10 @@ def replay(cfg, inputs, label):
     bad = [(j, nm) for j, nm in enumerate(names) if _parse_name(nm, n) != [int(p) for p in powers[j]]]
     if bad:
         return True, dict(names=bad[:3], expected=pf.get_feature_names_out().tolist()[:10])
+    cn = list(est.get_feature_names_out(CUSTOM[:n]))
+    bad = [(j, nm) for j, nm in enumerate(cn) if j >= len(powers) or _parse_custom(nm, CUSTOM[:n]) != [int(p) for p in powers[j]]]
+    if bad or len(cn) != len(powers):
+        return True, dict(input_features=CUSTOM[:n], names=bad[:3], expected=pf.get_feature_names_out(CUSTOM[:n]).tolist()[:10])
     return False, "no difference on the real code"
 
 
